@@ -445,11 +445,12 @@ def var_wf(eng, st, v_z):
     ch = st._read_field_at(v_z, "_children", st.field_type("_children"))
     chel = st.seq_elems(ch)
     leaf = z3.And(_vsize(v_z) == 1, _child(v_z, z3.IntVal(0)) == v_z)
-    comp = z3.And(st.seq_len(ch) == _vsize(v_z),
-                  qforall([r], z3.Implies(z3.And(r >= 0, r < _vsize(v_z)),
-                                          z3.And(chel[r] == _child(v_z, r), z3.Not(_kids(_child(v_z, r))), _vsize(_child(v_z, r)) == 1)),
-                          patterns=[chel[r]]))
-    return z3.If(_kids(v_z), comp, leaf)
+    allc = qforall([r], z3.Implies(z3.And(r >= 0, r < _vsize(v_z)),
+                                   z3.And(chel[r] == _child(v_z, r), z3.Not(_kids(_child(v_z, r))), _vsize(_child(v_z, r)) == 1)),
+                   patterns=[chel[r]])
+    # stated as guarded conjuncts (equivalent to If(kids, comp, leaf)): the quantified part can be instantiated eagerly
+    return z3.And(z3.Implies(_kids(v_z), st.seq_len(ch) == _vsize(v_z)), z3.Implies(_kids(v_z), allc),
+                  z3.Implies(z3.Not(_kids(v_z)), leaf))
 
 
 def _cb(which, v_z, r):
@@ -519,8 +520,53 @@ def sf_Corr(eng, st, args, kw, node):
     return V(("val",), _uf("Corr", z3.IntSort(), z3.IntSort(), z3.IntSort())(var.z, val.z))
 
 
+def sf_fv(eng, st, args, kw, node):
+    """fv(x): the abstract value (sort val) that the float x is - an injection of the doubles into the abstract values"""
+    x = args[0]
+    if x.t[0] == "val":
+        return x
+    fz = st.coerce(x, ("float",)).z
+    return V(("val",), _uf("fv", fz.sort(), z3.IntSort())(fz))
+
+
+def sf_dkeys(eng, st, args, kw, node):
+    """dkeys(d) / dvals(d): the insertion log of a dict that is only filled by d[key] = value"""
+    if args[0].t[0] != "dlog":
+        raise Unsupported("dkeys of " + str(args[0].t))
+    return args[0].items[0]
+
+
+def sf_dvals(eng, st, args, kw, node):
+    if args[0].t[0] != "dlog":
+        raise Unsupported("dvals of " + str(args[0].t))
+    return args[0].items[1]
+
+
+def sf_unboxl(eng, st, args, kw, node):
+    """unboxl(v): the list that the abstract value v is (inverse of the boxing done when a list is stored as a dict value)"""
+    return V(("list", ("val",)), z3.Function("unboxl", z3.IntSort(), z3.IntSort())(args[0].z))
+
+
+def sf_allocated(eng, st, args, kw, node):
+    """allocated(x): the reference exists in the current state (what the invariant of a loop has to say about objects that
+    earlier iterations allocated, so that later allocations are known to be other objects)"""
+    x = args[0]
+    st.type_tag(x)
+    return _b(z3.And(x.z >= 0, x.z < st.alloc))
+
+
+def sf_isboxl(eng, st, args, kw, node):
+    return _b(z3.Function("isboxl", z3.IntSort(), z3.BoolSort())(args[0].z))
+
+
+def sf_Dec(eng, st, args, kw, node):
+    """Dec(var, value): what the (leaf) variable decodes the value to - a function of the variable and the value"""
+    var, val = args
+    return V(("val",), _uf("Dec", z3.IntSort(), z3.IntSort(), z3.IntSort())(var.z, val.z))
+
+
 BuiltinMixin.SPEC_FUNCS.update({"is_scalar_objective": sf_is_scalar_objective, "scalar_case": sf_scalar_case,
-                                "nanfree": sf_nanfree, "isnanv": sf_isnanv, "Corr": sf_Corr})
+                                "nanfree": sf_nanfree, "isnanv": sf_isnanv, "Corr": sf_Corr, "Dec": sf_Dec, "fv": sf_fv, "dkeys": sf_dkeys, "dvals": sf_dvals, "unboxl": sf_unboxl, "isboxl": sf_isboxl, "allocated": sf_allocated})
 
 
 def sf_has_key(eng, st, args, kw, node):
